@@ -21,9 +21,9 @@ from .tokdiff import TokOracle, help_names, assume_not_named, run_tok_job, finis
 from .corpus import CORPUS
 
 PROP = "C10"
-GRAMMARS = ["g1", "p1", "c1", "c2", "c3", "c4", "h1", "h2", "o1", "a1", "k2", "k3", "k4", "v1", "c5", "c6", "c7", "c9", "hr", "x1", "x4", "f1"]
+GRAMMARS = ["g1", "p1", "c1", "c2", "c3", "c4", "h1", "h2", "o1", "a1", "k2", "k3", "k4", "v1", "c5", "c6", "c7", "c9", "hr", "x1", "x4", "f1", "kv"]
 # which command levels configured a version (path of primary command names -> bool)
-VERSIONS = {"h1": {(): True}, "h2": {(): False, ("add",): True}}
+VERSIONS = {"h1": {(): True}, "h2": {(): False, ("add",): True}, "kv": {(): False, ("drink",): True}}
 
 
 def level_named(level):
